@@ -94,7 +94,7 @@ func run(c *lib.Ctx) error {
 	if err := straceWorks(scratch); err != nil {
 		return lib.Infra("strace with signal injection is not usable here: %v", err)
 	}
-	nEnum, nOps, nRandom := c.Pick(2, 40), c.Pick(8, 12), c.Pick(24, 1500)
+	nEnum, nOps, nRandom := c.Pick(2, 24), c.Pick(8, 12), c.Pick(24, 800)
 	maxPoints := c.Pick(40, 400)
 	var groups [][]Event
 	var gmu sync.Mutex
@@ -159,6 +159,14 @@ func run(c *lib.Ctx) error {
 	sort.Slice(groups, func(a, b int) bool { return groups[a][0].Tag < groups[b][0].Tag })
 	if len(groups) > 0 {
 		c.Sample(groups[0])
+	}
+	if os.Getenv("VERIF_SELFTEST_CORRUPT") != "" { // development-time vacuity guard: the judge must reject a falsified recording
+		for i := range groups[0] {
+			if e := &groups[0][i]; e.K == "Crashed" {
+				e.Next++
+				break
+			}
+		}
 	}
 	if err := judge(c, dir, "TraceStoreCrash(V)", groups); err != nil {
 		wg.Wait()
